@@ -424,6 +424,7 @@ class World:
         self.n_eps = 0
         self.last_rx = {}      # timed mode: last delivery instant per receiver (FIFO)
         self.depth = 0
+        self.naive = False     # True: naive scheduler without any reduction (validation of the reductions only)
         self.app_now = []      # interleave mode: application actions to run at the next scheduling point
         self.eps_only = None   # names of the nodes whose scheduling latency is symbolic (None: all)
         self.branching = True  # False: canonical schedule (job pass first), no interleaving choices
@@ -519,6 +520,8 @@ class World:
             self.time_calls = 0
             fn()
             return True
+        if self.naive:
+            return self._micro_step_naive()
         order = self.nodes
         if not self.branching and len(order) > 1:
             # canonical schedule: serve the nodes round-robin (a fixed priority order would starve the last one)
@@ -565,6 +568,26 @@ class World:
             if n.deferred and n.job_enabled():
                 raise PathAbort("deferral without effect (equivalent to running the pass first)")
         return False
+
+    def _micro_step_naive(self):
+        """no reduction at all: every enabled event of every node may go next (used only to validate the
+        reductions on shapes small enough for both schedulers to finish)"""
+        evs = []
+        for n in self.nodes:
+            if n.inbox:
+                evs.append(('rx', n))
+            if n.job_enabled():
+                evs.append(('job', n))
+        if not evs:
+            return False
+        tag = 'nv%d' % self.cp
+        self.cp += 1
+        kind, n = evs[self.ex.choose(tag, len(evs))]
+        if kind == 'rx':
+            n.deliver(n.inbox.pop(0))
+        else:
+            n.run_job()
+        return True
 
     def _next_macro(self):
         """interleave mode: earliest parked timeout / app event -> (time, kind, obj)"""
